@@ -176,8 +176,10 @@ class ProgressBarHandler:
                 self._send_dashboard_update(progress_bar)
                 self.total_updated.clear()
 
-            # Check if there's an actual update
-            if tasks_completed > 0 and tasks_completed == progress_bar.n:
+            # Check if there's an actual update. When the total has just been set to what is already shown (all tasks
+            # of an iterable of unknown length were done before its length became known) we still have to go on, to
+            # signal that the progress bar is complete
+            if tasks_completed > 0 and tasks_completed == progress_bar.n and progress_bar.n != progress_bar.total:
                 continue
 
             # Update progress bar
